@@ -48,5 +48,4 @@ def run(tier):
 
 
 def replay(rp):
-    print(json.dumps(rp, indent=1))
-    return 0
+    return T.replay(rp)
